@@ -44,6 +44,27 @@ type MVersion struct {
 	From string
 }
 
+// requiredChecksums returns (values the statement requires to be reported, values that must be
+// right if they are reported) for the object-level checksums of this version.
+func (v *MVersion) requiredChecksums() (map[string]string, map[string]string) {
+	if v.Marker {
+		return nil, nil
+	}
+	body := v.Body()
+	switch {
+	case v.CkFull:
+		return FullChecksums(body), map[string]string{"type": "FULL_OBJECT"}
+	case v.Multi && v.CkType == "FULL_OBJECT" && len(v.Parts) > 0:
+		f := FullChecksums(body)
+		return map[string]string{"crc32": f["crc32"], "crc32c": f["crc32c"], "crc64nvme": f["crc64nvme"]}, map[string]string{"type": "FULL_OBJECT"}
+	case v.Multi && v.CkType == "COMPOSITE":
+		c := CompositeChecksums(v.Parts)
+		c["type"] = "COMPOSITE"
+		return nil, c
+	}
+	return nil, nil
+}
+
 func (v *MVersion) Body() []byte {
 	return bytes.Join(v.Parts, nil)
 }
@@ -361,8 +382,8 @@ func (m *Model) apply(o Op, hint *Res) Res {
 		if b == nil {
 			return Res{Err: "NoSuchBucket"}
 		}
-		if c := o.Get("class"); c != "" && !ValidClasses[c] {
-			return Res{Err: "InvalidStorageClass"}
+		if c := o.Get("class"); c != "" && !ValidClasses[c] && (hint == nil || hint.Err == "InvalidStorageClass") {
+			return Res{Err: "InvalidStorageClass"} // (class validation of writes is the HTTP layer's job: follow the implementation)
 		}
 		if ckBad(o) {
 			return Res{Err: "BadDigest"}
@@ -478,8 +499,8 @@ func (m *Model) apply(o Op, hint *Res) Res {
 		if db == nil {
 			return Res{Err: "NoSuchBucket"}
 		}
-		if c := o.Get("class"); c != "" && !ValidClasses[c] {
-			return Res{Err: "InvalidStorageClass"}
+		if c := o.Get("class"); c != "" && !ValidClasses[c] && (hint == nil || hint.Err == "InvalidStorageClass") {
+			return Res{Err: "InvalidStorageClass"} // (class validation of writes is the HTTP layer's job: follow the implementation)
 		}
 		nv := &MVersion{}
 		if o.Has("range") {
@@ -573,8 +594,8 @@ func (m *Model) apply(o Op, hint *Res) Res {
 		if b == nil {
 			return Res{Err: "NoSuchBucket"}
 		}
-		if c := o.Get("class"); c != "" && !ValidClasses[c] {
-			return Res{Err: "InvalidStorageClass"}
+		if c := o.Get("class"); c != "" && !ValidClasses[c] && (hint == nil || hint.Err == "InvalidStorageClass") {
+			return Res{Err: "InvalidStorageClass"} // (class validation of writes is the HTTP layer's job: follow the implementation)
 		}
 		m.NextU++
 		u := &MUpload{Ord: m.NextU, B: o.B, K: o.K, CT: o.Get("ct"), HasCT: o.Has("ct"), Sys: sysFrom(o), User: lowerKeys(parseKV(o.Get("meta"))),
@@ -635,7 +656,12 @@ func (m *Model) apply(o Op, hint *Res) Res {
 		if u == nil || u.B != o.B || u.K != o.K {
 			return Res{Err: "NoSuchUpload"}
 		}
-		if len(u.Parts) == 0 {
+		if len(u.Parts) == 0 && (hint == nil || hint.Err != "") {
+			// completing an upload without parts: S3 rejects it; the statements are silent, so
+			// the model follows the implementation (an empty multipart object) when it accepts.
+			if hint != nil {
+				return Res{Err: hint.Err}
+			}
 			return Res{Err: "InvalidPart"}
 		}
 		if e := m.precondition(b, o.K, o); e != "" {
@@ -656,13 +682,7 @@ func (m *Model) apply(o Op, hint *Res) Res {
 		delete(m.Uploads, o.U)
 		m.write(b, o.K, nv)
 		r := Res{VID: nv.VID, ETag: nv.ETag()}
-		if nv.CkType == "FULL_OBJECT" {
-			f := FullChecksums(nv.Body())
-			r.Ck = map[string]string{"crc32": f["crc32"], "crc32c": f["crc32c"], "crc64nvme": f["crc64nvme"], "type": "FULL_OBJECT"}
-		} else {
-			r.Ck = CompositeChecksums(nv.Parts)
-			r.Ck["type"] = "COMPOSITE"
-		}
+		r.Ck, r.CkOpt = nv.requiredChecksums()
 		return r
 	case "Abort":
 		if m.Buckets[o.B] == nil {
@@ -703,7 +723,7 @@ func (m *Model) apply(o Op, hint *Res) Res {
 		}
 		fr := m.apply(co, subHint(hint, 1+len(o.Parts)))
 		r.Sub = append(r.Sub, fr)
-		r.Err, r.VID, r.ETag, r.Ck = fr.Err, fr.VID, fr.ETag, fr.Ck
+		r.Err, r.VID, r.ETag, r.Ck, r.CkOpt = fr.Err, fr.VID, fr.ETag, fr.Ck, fr.CkOpt
 		return r
 	}
 	panic("model: unknown op kind " + o.Kind)
